@@ -5,6 +5,7 @@
 //   caldrv triples                  all 2^24 (h,m,s): LocalTime::isError vs the validity predicate; class table
 //   caldrv ruleday <y0> <y1>        y m dow dom -> calcStartDayOfMonth (month day) for every expression
 #include "drv_common.h"
+#include <ace_time/common/DateStrings.h>
 using namespace ace_time;
 Print VerifSerial;
 extern "C" unsigned long millis() { return 0; }
@@ -78,6 +79,21 @@ int main(int argc, char** argv) {
       if (!ok) { if (bad < 20) printf("{\"t\":%ld,\"got\":[%d,%d,%d,%d,%d,%d,%ld,%d],\"want\":[%ld,%d,%d,%ld,%ld,%ld]}\n", t, dt.year(), dt.month(), dt.day(), dt.hour(), dt.minute(), dt.second(), (long) dt.toEpochSeconds(), (int) dt.isError(), c.y, c.m, c.d, sod / 3600, (sod % 3600) / 60, sod % 60); bad++; }
     };
     for (long t = t0; t < t1; t += stride) check(t);
+    // an offset date-time reports the day count of its *instant*: at, just before and just after every UTC midnight, for
+    // offsets on both sides of Greenwich
+    {
+      static const int offs[] = {-720, -120, -1, 0, 1, 330, 840};
+      for (long day = floordiv(t0, 86400) + 1; day * 86400 < t1 - 2; day += (stride > 1 ? 1 : 1)) for (long d = -1; d <= 1; d++) for (int om : offs) {
+        long t = day * 86400 + d;
+        if (t <= (long) INT32_MIN + 86400 || t >= (long) INT32_MAX - 86400) continue;
+        OffsetDateTime odt = OffsetDateTime::forEpochSeconds((acetime_t) t, TimeOffset::forMinutes((int16_t) om));
+        n++;
+        if (odt.isError() || (long) odt.toEpochDays() != floordiv(t, 86400) || (long) odt.toEpochSeconds() != t) {
+          if (bad < 20) printf("{\"t\":%ld,\"offsetMinutes\":%d,\"toEpochDays\":%ld,\"want\":%ld}\n", t, om, (long) odt.toEpochDays(), floordiv(t, 86400));
+          bad++;
+        }
+      }
+    }
     if (stride > 1) {
       // every day boundary and its neighbours inside [t0, t1)
       for (long day = floordiv(t0, 86400); day * 86400 < t1; day++) for (long d = -2; d <= 2; d++) { long t = day * 86400 + d; if (t >= t0 && t < t1) check(t); }
@@ -111,6 +127,24 @@ int main(int argc, char** argv) {
           if (bad < 20) printf("{\"y\":%d,\"month\":%d,\"day\":%d,\"toEpochDays\":%ld}\n", y, mo, d, (long) ld.toEpochDays());
           bad++;
         }
+      }
+    }
+    // the *names* under which the day of the week and the month are reported
+    {
+      static const char* dn[] = {"Monday", "Tuesday", "Wednesday", "Thursday", "Friday", "Saturday", "Sunday"};
+      static const char* mn[] = {"January", "February", "March", "April", "May", "June", "July", "August", "September", "October", "November", "December"};
+      DateStrings ds;
+      for (int k = 1; k <= 7; k++) {
+        std::string lg = ds.dayOfWeekLongString((uint8_t) k); std::string sh = ds.dayOfWeekShortString((uint8_t) k);
+        if (lg != dn[k - 1] || sh != std::string(dn[k - 1]).substr(0, 3)) { if (bad < 20) printf("{\"dayOfWeekName\":%d,\"long\":\"%s\",\"short\":\"%s\"}\n", k, lg.c_str(), sh.c_str()); bad++; }
+        // 2000-01-03 was a Monday
+        LocalDate ld = LocalDate::forComponents(2000, 1, (uint8_t) (2 + k));
+        Print p; ld.printTo(p);
+        if (p.buf.find(dn[k - 1]) == std::string::npos) { if (bad < 20) printf("{\"printedDate\":\"%s\",\"wantName\":\"%s\"}\n", p.buf.c_str(), dn[k - 1]); bad++; }
+      }
+      for (int k = 1; k <= 12; k++) {
+        std::string lg = ds.monthLongString((uint8_t) k); std::string sh = ds.monthShortString((uint8_t) k);
+        if (lg != mn[k - 1] || sh != std::string(mn[k - 1]).substr(0, 3)) { if (bad < 20) printf("{\"monthName\":%d,\"long\":\"%s\",\"short\":\"%s\"}\n", k, lg.c_str(), sh.c_str()); bad++; }
       }
     }
     // class table for the cross-check of the predicate used above against TLC's
